@@ -85,7 +85,7 @@ def run(ctx):
 
 MANIFEST = {
     "category": "other",
-    "technique": "await/cancellation model over coroutine MIR: take events vs reachable Yield terminators (E5)",
+    "technique": "await/cancellation model over coroutine MIR: take events vs reachable Yield terminators (E5); check-before-wait rule on the ready notification",
     "text": "Static over ALL suspension points of Orderer::next: no Yield is reachable between the committed take and the return of the item. This is the quantifier over cancellation points that no test schedule reaches. Decides cancellation safety of this future, not end-to-end delivery.",
     "note": "Trusted: rustc MIR (pre-transform coroutines, one Yield per poll loop), driver, rule engine; tokio::select! drops non-selected branch futures; dropping an uncommitted TransactionPermit rolls back (C10).",
 }
